@@ -189,6 +189,20 @@ class PoolSelection:
                     inner = PoolSelection(ctx, h, None, P_(h, pi[0]), offer_info={P_(h, ai[0][0], ai[0][1])}, allow_helper=False)
                 except AnchorMissing:
                     continue
+                if inner.form == "index":
+                    # the helper returns the position itself: `pools.iter().position(|p| info.equal(&p.info)).ok_or(Err)`
+                    exs_ = [(eb, v_) for (eb, i_, cls, v_) in common.exit_sites(P, h)]
+                    if len(exs_) == 1:
+                        hv_ = exs_[0][1]
+                        okk = True
+                        for k_ in (0, 1):
+                            some_k = ("agg", "adt", "std::option::Option::Some", ((0, ("const", "int", k_)),))
+                            if const_eval(resolve(replace(hv_, inner.pos, some_k))) != k_:
+                                okk = False
+                        oks_ = [x for x in common.walk(hv_) if x[0] == "call" and isinstance(x[3], str) and common.last_seg(x[3]) in ("ok_or", "ok_or_else") and "option::Option" in x[3]]
+                        if okk and len(oks_) == 1 and inner.pos in list(common.walk(oks_[0][4][0])):
+                            cands.append((b, h, cv, inner, "index"))
+                    continue
                 if inner.form != "branch":
                     continue
                 rets = {}
@@ -204,6 +218,10 @@ class PoolSelection:
                             rets[k] = P.val_rvalue_in(h, (eb, i_), h.body.blocks[eb]["stmts"][i_]["rv"], inner.regions[k])
                 if sorted(rets) == [0, 1]:
                     cands.append((b, h, cv, inner, rets))
+            if len(cands) == 1 and cands[0][4] == "index":
+                self.form = "helper-index"
+                self.h_bb, self.h, self.h_call, self.h_inner, _ = cands[0]
+                return
             if len(cands) == 1:
                 self.form = "helper"
                 self.h_bb, self.h, self.h_call, self.h_inner, self.h_rets = cands[0]
@@ -220,6 +238,9 @@ class PoolSelection:
             # an index chosen in the branches and used after they merged (`pools[offer_idx]`, `1 - offer_idx`) folds to a constant
             return fold_indices(resolve(P.val_operand_in(self.swap, loc, operand, self.regions[k])))
         v = P.val_operand(self.swap, loc, operand, self.swap.body)
+        if self.form == "helper-index":
+            ok_k = ("agg", "adt", "std::result::Result::Ok", ((0, ("const", "int", k)),))
+            return fold_indices(resolve(replace(v, self.h_call, ok_k)))
         if self.form == "helper":
             mapping = {("param", self.h.path, i): a for i, a in enumerate(self.h_call[4])}
             rk = common.subst_params(self.h_rets[k], mapping)
@@ -228,7 +249,7 @@ class PoolSelection:
         return fold_indices(resolve(replace(v, self.pos, some_k)))
 
     def describe(self, k):
-        if self.form == "helper":
+        if self.form in ("helper", "helper-index"):
             return "%s: offer == pools[%d]" % (self.h.name, k)
         return "offer == pools[%d]" % k if self.form == "branch" else "position(offer) == %d" % k
 
@@ -242,6 +263,10 @@ class PoolSelection:
                     ok, _ = common.fail_edge_only_errors(P, swap, gb.edge(False))
                     return ok
             return False
+        if self.form == "helper-index":
+            # None => Err by ok_or in the helper; the caller propagates it
+            pg = common.propagated(P, swap, self.h_bb)
+            return pg is not None and common.fail_edge_only_errors(P, swap, pg[2])[0]
         if self.form == "helper":
             if not self.h_inner.rejects_foreign():
                 return False
